@@ -268,6 +268,14 @@ def build_pool(seed, tier):
                 members.append({"op": "transpile", "sql": q, "read": rd, "write": w})
         groups.append(members)
         calls.extend(members)
+    # one reused-parser group per statement family (its failing members included), so that no family depends on the cycling above
+    # to meet a reused Parser: every statement in its own dialect, error level cycling
+    for _fi, fname in enumerate(fam_names):
+        lvl = levels[(_fi + off) % len(levels)]
+        members = [{"op": "parse", "sql": q, "read": d, "error_level": lvl} for d, q in corpus.stateful_families()[fname]]
+        members += [{"op": "parse", "sql": q, "read": d, "error_level": lvl} for d, q in rng.sample(corpus.FAILING, 2)]
+        groups.append(members)
+        calls.extend(members)
     groups.extend(subclass_groups)  # "define a dialect deriving from P, then generate for P" as focus groups of their own
     # Settings groups: ONE dialect class under several instance settings, the same mixed-case identifiers through every path that
     # consults the settings (safe quoting, qualification, star expansion, normalisation). State keyed by class, name or text alone
